@@ -45,6 +45,7 @@ LeafOf(name) ==
     [] name = "BA8" -> [k |-> "bytearray", p |-> U8]
     [] name = "BAS8" -> [k |-> "bytearray", p |-> S8]
     [] name = "BA16" -> [k |-> "bytearray", p |-> U16]
+    [] name = "BA32" -> [k |-> "bytearray", p |-> U32]
     [] name = "BF2" -> [k |-> "bytesfixed", n |-> 2]
     [] name = "BG" -> [k |-> "bytesgreedy"]
     [] name = "BT" -> [k |-> "bytesterm", terms |-> <<0>>, wt |-> TRUE, eof |-> TRUE]
@@ -58,7 +59,7 @@ LeafOf(name) ==
     [] name = "BIT8" -> BitF(U8, <<[n |-> "a", bits |-> 3], [n |-> "b", bits |-> 5]>>, TRUE)
     [] name = "BIT16n" -> BitF(U16, <<[n |-> "a", bits |-> 4], [n |-> "b", bits |-> 12]>>, FALSE)
 AllLeafNames == {"U8", "S8", "U16", "S16", "U32", "S32", "U64", "S64", "F32", "F64", "UUID", "Vec3", "Null",
-                 "BA8", "BAS8", "BA16", "BF2", "BG", "BT", "BTs", "BTn", "STR8", "STR16n", "SF3", "CS", "CSn",
+                 "BA8", "BAS8", "BA16", "BA32", "BF2", "BG", "BT", "BTs", "BTn", "STR8", "STR16n", "SF3", "CS", "CSn",
                  "BIT8", "BIT16n"}
 
 \* --------------------------------------------------------------- constructors
@@ -101,6 +102,15 @@ Con(name, c) ==
     [] name = "TmplCtx" -> Tmpl(<<F("sel", U8), F("body", CtxSw(0, "sel", <<K(0, c), K(1, U16)>>, <<>>))>>, FALSE)
     [] name = "TmplCtxUp" -> Tmpl(<<F("sel", U8), F("inner", Tup(<<CtxSw(1, "sel", <<K(1, c)>>, <<U8>>), U8>>))>>, FALSE)
     [] name = "Adapt" -> [k |-> "adapter", c |-> c]
+    \* ill-formed programs: no value is in their domain; Enc must say so and Dec must stay total
+    [] name = "MisOpt" -> OptFlag("x", 1, c)
+    [] name = "MisTup" -> Tup(<<OptFlag("x", 1, c), CtxSw(0, "x", <<K(0, c)>>, <<>>)>>)
+    [] name = "MisSel" -> Tmpl(<<F("sel", c), F("o", OptFlag("sel", 1, U8)), F("b", CtxSw(0, "sel", <<K(0, U8)>>, <<>>))>>, FALSE)
+    [] name = "MisName" -> Tmpl(<<F("sel", U8), F("o", OptFlag("nosuch", 1, c)), F("b", CtxSw(0, "nosuch", <<K(0, c)>>, <<>>))>>, FALSE)
+    [] name = "MisUp" -> Tmpl(<<F("sel", U8), F("b", CtxSw(3, "sel", <<K(0, c)>>, <<>>))>>, FALSE)
+    [] name = "MisFlagS" -> [k |-> "flagswitch", f |-> S8, ch |-> <<[bit |-> 1, name |-> "A", t |-> c], [bit |-> 128, name |-> "H", t |-> U8]>>]
+    [] name = "MisEnumW" -> [k |-> "enumswitch", e |-> U64, ch |-> <<K(0, c), K(1, U16)>>]
+    [] name = "MisBitS" -> Tup(<<BitF(S8, <<[n |-> "a", bits |-> 8]>>, TRUE), BitF(U32, <<[n |-> "a", bits |-> 16], [n |-> "b", bits |-> 16]>>, TRUE), c>>)
 AllConNames == {"CollP", "CollP16", "CollF", "CollG", "OptP", "IfP", "TBP", "TBPe", "TBF", "TBG", "TBGe", "TBT", "TBTe",
                 "LenSw", "LenSwD", "EnumSw", "FlagSw", "TupA", "TupB", "Tup2", "TmplA", "TmplFlag", "TmplSkip",
                 "TmplCtx", "TmplCtxUp", "Adapt"}
@@ -253,6 +263,15 @@ SizeSound == Size(tree) # -1 => \A j \in 1..Len(rows) : \A e \in Es :
 DecTotal == \A j \in 1..Len(rows) : \A e \in Es :
                LET r == EncOf(rows[j], e) IN (r.st = "ok" /\ Len(r.b) <= 12) =>
                   \A n \in 0..Len(r.b) : Dec(tree, Take(r.b, n), e).ok \in BOOLEAN
+\* the encoder is total too: a value of any shape is classified (domain / refused / outside the domain)
+Shapes == {[i |-> 0], [i |-> -1], [b |-> <<1>>], [s |-> <<65>>], None, [l |-> <<>>], [l |-> <<[i |-> 0], [i |-> 0]>>], [d |-> <<>>],
+           [d |-> <<[n |-> "sel", v |-> [i |-> -1]], [n |-> "o", v |-> None], [n |-> "b", v |-> [i |-> 0]]>>],
+           [d |-> <<[n |-> "a", v |-> [i |-> -1]], [n |-> "b", v |-> [b |-> <<>>]]>>], [d |-> <<[n |-> "a", v |-> [b |-> <<>>]]>>],
+           [tag |-> [i |-> -1], val |-> None], [tag |-> None, val |-> None], [w |-> <<1, 0, 0, 0, 0, 0, 0, 0, 0>>], [f |-> <<0>>], [u |-> <<0>>]}
+EncTotal == \A w \in Shapes : \A e \in Es : Enc(tree, w, e).st \in {"ok", "rej", "bad"}
+\* ... and on arbitrary bytes, for every tree (also the ill-formed ones)
+Probes == {<<>>, <<0>>, <<1, 1, 0, 5>>, <<255, 255, 255, 255, 255>>, <<2, 0, 1, 0, 0, 0, 0, 9>>, <<128, 3, 65, 0, 66, 10, 1, 1, 1, 0>>}
+DecProbe == \A p \in Probes : \A e \in Es : Dec(tree, p, e).ok \in BOOLEAN
 \* the byte order changes bytes, never acceptance or length
 EndianAgnostic == \A j \in 1..Len(rows) : rows[j].st = rows[j].lst /\ Len(rows[j].b) = Len(rows[j].lb)
 =============================================================================
